@@ -546,7 +546,8 @@ class Walker:
             return out
         if isinstance(s, (ast.Pass, ast.Break, ast.Continue, ast.FunctionDef)):
             return paths
-        raise AnalysisError("statement %s in the analysed closure of %s" % (type(s).__name__, self.cls))
+        from .report import Uninterpretable
+        raise Uninterpretable("statement %s in the analysed closure of %s" % (type(s).__name__, self.cls))
 
     def expr_effects(self, e, paths, stmt):
         calls = [n for n in ast.walk(e) if isinstance(n, ast.Call)]
